@@ -85,6 +85,7 @@ def perturb(case, choices):
     facts = tg.Facts(case["files"])
     it = iter(list(choices) * 8)
     labels = []
+    same_key = []
     full = {"source": [], "sink": []}
     for kind in ("source", "sink"):
         for r in case["rules"][kind]:
@@ -125,6 +126,16 @@ def perturb(case, choices):
                     r2["unit_name"] = "zz_other.py"
                     labels.append("second-rule:other-unit")
                 full[kind].append(r2)
+            if mode in (4, 5) and kind == "sink" and r.get("target") and r.get("name") \
+                    and tg.OP_KIND_SNK.get(r.get("operation")) in ("call", "method"):
+                # a second rule that agrees with this one in everything but the designated operand: both apply, the
+                # statement is a sink for either operand
+                t0 = tg.rule_targets(r)[0]
+                r2 = dict(r)
+                r2["target"] = [tg.ARG[OTHER_TARGET.get(t0, "arg0")]]
+                labels.append("second-rule:same-key-other-target")
+                full[kind].append(r2)
+                same_key.append(r2)
             if mode in (13, 14) and kind == "sink" and r.get("target") and r.get("name") \
                     and tg.OP_KIND_SNK.get(r.get("operation")) in ("call", "method"):
                 # a rule of ANOTHER operation with the same name and another designated operand: it describes a
@@ -137,7 +148,11 @@ def perturb(case, choices):
                 full[kind].append(r2)
     sel = next(it) % 10
     small = None
-    if sel == 0:
+    if same_key:
+        # the most telling subset: everything except the added same-key rules (adding them must not remove a flow)
+        small = {"source": list(full["source"]), "sink": [r for r in full["sink"] if not any(r is x for x in same_key)]}
+        labels.append("small:without-same-key-rules")
+    elif sel == 0:
         small = {"source": [], "sink": list(full["sink"])}
         labels.append("small:no-source-rule")
     elif sel == 1:
@@ -383,7 +398,7 @@ def random_shard(arg):
     col = Collector()
     src_kinds = [k for k in tg.SOURCE_KINDS if ("src:" + k) not in avoid] or ["method"]
     snk_kinds = [k for k in tg.SINK_KINDS if ("snk:" + k) not in avoid] or ["call"]
-    profile = {"src_kinds": src_kinds + ["decoy_param"], "snk_kinds": snk_kinds, "neg": 5,
+    profile = {"src_kinds": src_kinds + ["decoy_param", "decoy_call_suffix", "decoy_call_prefix"], "snk_kinds": snk_kinds, "neg": 5,
                "endings": ["drop", "kill", "wrongpos", "wrongpos", "unrel_field", "unrel_obj", "unrel_var", "const_callee",
                            "decoy_fieldw_prefix", "decoy_method_like_call"], "max_links": 3}
 
